@@ -637,9 +637,17 @@ impl<T: Clone> OrderType<T> {
                     )
                 } else {
                     // Partial match
+                    let new_quantity = visible_qty - incoming_quantity;
+                    let mut updated = self.clone();
+                    match &mut updated {
+                        Self::TrailingStop { quantity, .. }
+                        | Self::PeggedOrder { quantity, .. }
+                        | Self::MarketToLimit { quantity, .. } => *quantity = new_quantity,
+                        _ => updated = self.with_reduced_quantity(new_quantity),
+                    }
                     (
                         incoming_quantity, // consumed all incoming
-                        Some(self.with_reduced_quantity(visible_qty - incoming_quantity)),
+                        Some(updated),
                         0, // not hidden reduced
                         0, // not remaining quantity
                     )
